@@ -77,9 +77,9 @@ Fixpoint retry_loop (s : strategy) (ds : list Q) (script : list attempt) {struct
   end.
 
 (* `retried`: the per-request strategy replaces the client's; None disables retrying *)
-Inductive per_request := PUnset | PNone | PSome (s : strategy).
+Inductive per_request := RUnset | RNone | RSome (s : strategy).
 Definition effective (client : option strategy) (p : per_request) : option strategy :=
-  match p with PUnset => client | PNone => None | PSome s => Some s end.
+  match p with RUnset => client | RNone => None | RSome s => Some s end.
 
 Definition send_with (client : option strategy) (p : per_request) (jit : nat -> Q) (script : list attempt) : run :=
   match effective client p with
